@@ -1643,6 +1643,184 @@ def qpsk_cases(ctx, r, lines, checks):
         checks.append((site + ' vs Gen.mimoQpsk', cls, 'ok ' + canon_bqm(b), src, False))     # the model follows the code in both branches
 
 
+# ------------------------------------------------------------------------------------ argument forms: list vs every other documented form
+
+def _forms(kind, value, r):
+    """the other forms of an argument documented as Iterable / Collection / Sequence / ArrayLike / Mapping: a list of
+    (class of the form, source text of an expression over the name `v` holding the list form).  Every expression builds a
+    FRESH object, so one-shot iterators are new for every call."""
+    out = []
+    if kind == 'iterable':           # typing.Iterable: anything that can be iterated ONCE
+        out += [('one-shot iterator', 'iter(v)'), ('one-shot iterator', '(x for x in v)'), ('one-shot iterator', 'map(lambda x: x, v)'),
+                ('tuple', 'tuple(v)')]
+        if value and all(isinstance(x, tuple) and len(x) == 2 for x in value):
+            out += [('one-shot iterator', 'zip([a for a, _ in v], [b for _, b in v])')]
+            try:
+                if len({x[0] for x in value}) == len(value):
+                    out += [('dict view', 'dict(v).items()')]
+            except TypeError:
+                pass
+        elif value and len(set(map(repr, value))) == len(value):
+            out += [('dict view', 'dict.fromkeys(v).keys()')]
+    elif kind == 'collection':       # sized, iterable, container — re-iterable
+        out += [('tuple', 'tuple(v)')]
+        if len(set(map(repr, value))) == len(value):
+            out += [('dict view', 'dict.fromkeys(v).keys()')]
+        if value == list(range(len(value))):
+            out += [('range', 'range(len(v))')]
+    elif kind == 'sequence':
+        out += [('tuple', 'tuple(v)')]
+        if value == list(range(len(value))):
+            out += [('range', 'range(len(v))')]
+        if value and all(isinstance(x, str) and len(x) == 1 for x in value):
+            out += [('str', '"".join(v)')]
+    elif kind == 'array':
+        out += [('tuple', 'tuple(tuple(x) if isinstance(x, list) else x for x in v)'), ('numpy array', 'np.array(v)'),
+                ('numpy array', 'np.array(v, dtype=np.float32)')]
+        flat = [y for x in value for y in (x if isinstance(x, list) else [x])]
+        if all(float(y).is_integer() for y in flat):
+            out += [('numpy array', 'np.array(v, dtype=np.int64)'), ('numpy array', 'np.array(v, dtype=np.int8)')]
+    elif kind == 'mapping':
+        out += [('Mapping that is not a dict', '__import__("types").MappingProxyType(dict(v))'),
+                ('Mapping that is not a dict', '__import__("collections").ChainMap({}, dict(v))')]
+    return out
+
+
+def _same_model(a, b):
+    if isinstance(a, dimod.ConstrainedQuadraticModel) or isinstance(b, dimod.ConstrainedQuadraticModel):
+        return type(a) is type(b) and list(a.variables) == list(b.variables) and a.is_equal(b)
+    return same_bqm(a, b)
+
+
+def forms_cases(ctx, r):
+    """every generator argument documented as an iterable / collection / sequence / array-like / mapping, fed in each other
+    documented form (one-shot iterators, tuples, dict views, ranges, str, numpy arrays, non-dict mappings): the returned
+    model must be the one of the list form (which the other case generators check against the documented relation)"""
+    from dimod.generators.bpsp import binary_paint_shop_problem
+    from dimod.generators.satisfiability import random_kmcsat
+    from dimod.generators.chimera import chimera_anticluster
+    env0 = {'G': G, 'np': np, 'dimod': dimod, 'binary_paint_shop_problem': binary_paint_shop_problem, 'random_kmcsat': random_kmcsat,
+            'chimera_anticluster': chimera_anticluster}
+    imports = ('from dimod.generators.bpsp import binary_paint_shop_problem\nfrom dimod.generators.satisfiability import random_kmcsat\n'
+               'from dimod.generators.chimera import chimera_anticluster\n')
+
+    def run_call(call, args, subst):
+        """evaluate `call` (an expression over the argument names) with each name bound to its list form, except those in
+        `subst` (name -> form expression over v)"""
+        env = dict(env0)
+        for name, val in args.items():
+            env[name] = eval(subst[name], {'v': val, 'np': np}) if name in subst else val
+        with warnings.catch_warnings():
+            warnings.simplefilter('ignore')
+            try:
+                return eval(call, env), None
+            except (ValueError, TypeError, RuntimeError, KeyError, IndexError, AttributeError) as e:
+                return None, e
+
+    def one(name, call, args, kinds):
+        """args: name -> list form; kinds: name -> kind of the documented type (only these are varied)"""
+        site = f'generators.{name}'
+        ref, ref_err = run_call(call, args, {})
+        pool = [(an, cls, expr) for an, kind in kinds.items() for cls, expr in _forms(kind, args[an], r)]
+        if not pool:
+            return
+        # every single-argument substitution of a one-shot form, and a random sample of the rest / of combinations
+        chosen = [[t] for t in pool if t[1] == 'one-shot iterator']
+        rest = [t for t in pool if t[1] != 'one-shot iterator']
+        r.shuffle(rest)
+        chosen += [[t] for t in rest[:ctx.scale(3, 12)]]
+        if len(kinds) > 1:
+            for _ in range(ctx.scale(2, 6)):
+                combo = []
+                for an in kinds:
+                    opts = [t for t in pool if t[0] == an]
+                    if opts and r.random() < .7:
+                        combo.append(r.choice(opts))
+                if len(combo) > 1:
+                    chosen.append(combo)
+        for combo in chosen:
+            subst = {an: expr for an, _, expr in combo}
+            got, err = run_call(call, args, subst)
+            cls = '; '.join(f'{an} given as {c}' for an, c, _ in sorted(set((an, c, '') for an, c, _ in combo)))
+            ctx.tick(f'forms:{name}:' + '+'.join(sorted(set(c for _, c, _ in combo))))
+            ctx.case(('forms', name, call, repr(args), repr(subst)), nontrivial=ref is not None, sample=dict(call=call, forms=subst))
+            ok = (got is None and ref is None) if (got is None or ref is None) else _same_model(ref, got)
+            if not ok:
+                binds = ''.join(f'{an}_list = {val!r}\n' for an, val in args.items())
+                def bind(use_forms):
+                    return ''.join(f'v = {an}_list; {an} = ' + (subst[an] if use_forms and an in subst else 'v') + '\n' for an in args)
+                repro = (HDR + imports + binds + bind(False) + f'a = {call}\n' + bind(True) + f'b = {call}\n'
+                         + 'same = (a.is_equal(b) if isinstance(a, dimod.ConstrainedQuadraticModel) else (a.vartype is b.vartype and list(a.variables) == list(b.variables) and coef(a) == coef(b)))\n'
+                         + f'assert same, "the model depends on the form of the argument(s) {sorted(subst)}"\n')
+                what = (f'{call} with {args!r}: ' + ', '.join(f'{an} = {expr}' for an, expr in subst.items()) + ': '
+                        + (f'raises {type(err).__name__}: {err}' if got is None else f'accepted although the list form raises {type(ref_err).__name__}' if ref is None
+                           else f'returns {coef(got) if not isinstance(got, dimod.ConstrainedQuadraticModel) else "a different CQM"}, the list form {coef(ref) if not isinstance(ref, dimod.ConstrainedQuadraticModel) else ""}'))
+                ctx.fail('property', site, cls, what[:1500], repro=repro)
+
+    pool = ['a', 'b', 'c', 'd', 0, 1, 2, 3, ('t', 1)]
+    for rep in range(ctx.scale(10, 150)):
+        n = r.randint(2, 5)
+        nodes = r.sample(pool, n)
+        edges = [(u, v) if r.random() < .5 else (v, u) for u, v in itertools.combinations(nodes, 2) if r.random() < .6] or [(nodes[0], nodes[1])]
+        extra = [v for v in pool if v not in nodes][:1]
+        some_nodes = [v for v in nodes + extra if r.random() < .8]
+        weighted = [(v, r.randint(1, 16) / 8) for v in nodes + extra if r.random() < .7]
+        one('independent_set', 'G.independent_set(edges, nodes)', dict(edges=edges, nodes=some_nodes), dict(edges='iterable', nodes='iterable'))
+        one('maximum_independent_set', 'G.maximum_independent_set(edges, nodes, strength=2.5)', dict(edges=edges, nodes=some_nodes), dict(edges='iterable', nodes='iterable'))
+        one('maximum_weight_independent_set', 'G.maximum_weight_independent_set(edges, nodes)', dict(edges=edges, nodes=weighted), dict(edges='iterable', nodes='iterable'))
+        one('maximum_weight_independent_set', 'G.maximum_weight_independent_set(edges, nodes, strength=3.0, strength_multiplier=1.5)', dict(edges=edges, nodes=weighted), dict(edges='iterable', nodes='iterable'))
+        labels = list(range(n)) if r.random() < .4 else nodes
+        k = r.randint(0, n)
+        vt = r.choice(['BINARY', 'SPIN'])
+        one('combinations', f'G.combinations(n, {k}, strength=1.5, vartype={vt!r})', dict(n=labels), dict(n='collection'))
+        # array-likes
+        ni = r.randint(1, 3)
+        values = [r.randint(0, 40) / 4 for _ in range(ni)]; weights = [r.randint(1, 24) / 4 for _ in range(ni)]
+        if r.random() < .5:
+            values = [float(int(x)) for x in values]; weights = [float(max(1, int(x))) for x in weights]
+        caps = [r.randint(1, 32) / 4 for _ in range(r.randint(1, 2))]
+        P = [[0.0] * ni for _ in range(ni)]
+        for i in range(ni):
+            for j in range(i + 1, ni):
+                P[i][j] = P[j][i] = float(r.randint(0, 6))
+        one('knapsack', 'G.knapsack(values, weights, 4.5)', dict(values=values, weights=weights), dict(values='array', weights='array'))
+        one('multi_knapsack', 'G.multi_knapsack(values, weights, capacities)', dict(values=values, weights=weights, capacities=caps), dict(values='array', weights='array', capacities='array'))
+        one('bin_packing', 'G.bin_packing(weights, 6.0)', dict(weights=weights), dict(weights='array'))
+        one('quadratic_knapsack', 'G.quadratic_knapsack(values, weights, profits, 4.5)', dict(values=values, weights=weights, profits=P), dict(values='array', weights='array', profits='array'))
+        one('quadratic_multi_knapsack', 'G.quadratic_multi_knapsack(values, weights, profits, capacities)', dict(values=values, weights=weights, profits=P, capacities=caps),
+            dict(values='array', weights='array', profits='array', capacities='array'))
+        nq = r.randint(1, 3)
+        D = [[float(r.randint(0, 7)) if i != j else 0.0 for j in range(nq)] for i in range(nq)]
+        Fl = [[float(r.randint(0, 7)) if i != j else 0.0 for j in range(nq)] for i in range(nq)]
+        one('quadratic_assignment', 'G.quadratic_assignment(distance_matrix, flow_matrix)', dict(distance_matrix=D, flow_matrix=Fl), dict(distance_matrix='array', flow_matrix='array'))
+        # sequences
+        cars = r.sample(['a', 'b', 'c', 'd'], r.randint(1, 4)) if r.random() < .6 else list(range(r.randint(1, 4)))
+        seq = cars * 2; r.shuffle(seq)
+        one('binary_paint_shop_problem', 'binary_paint_shop_problem(car_sequence)', dict(car_sequence=seq), dict(car_sequence='sequence'))
+        seed = r.randrange(2 ** 31)
+        vs = r.choice([list(range(n + 1)), r.sample(['a', 'b', 'c', 'd', 'e', 'f'], n + 1)])
+        one('random_kmcsat', f'random_kmcsat(variables, 3, {r.randint(1, 4)}, seed={seed})', dict(variables=vs), dict(variables='sequence'))
+        one('random_nae3sat', f'G.random_nae3sat(variables, {r.randint(1, 4)}, seed={seed})', dict(variables=vs), dict(variables='sequence'))
+        one('gnm_random_bqm', f'G.gnm_random_bqm(variables, {r.randint(0, 6)}, "SPIN", random_state={seed})', dict(variables=vs), dict(variables='sequence'))
+        one('gnp_random_bqm', f'G.gnp_random_bqm(n, 0.5, "BINARY", random_state={seed})', dict(n=vs), dict(n='sequence'))
+        # graphs given as (nodes, edges): both are Collections
+        gnodes = list(range(n)) if r.random() < .5 else nodes
+        gedges = [e for e in itertools.combinations(gnodes, 2) if r.random() < .7] or [(gnodes[0], gnodes[1])]
+        for gname, gcall in (('uniform', f'G.uniform((gnodes, gedges), "SPIN", low=-2.0, high=2.0, seed={seed})'), ('randint', f'G.randint((gnodes, gedges), "BINARY", low=-3, high=3, seed={seed})'),
+                             ('ran_r', f'G.ran_r(3, (gnodes, gedges), seed={seed})'), ('power_r', f'G.power_r(3, (gnodes, gedges), seed={seed})'),
+                             ('doped', f'G.doped(0.5, (gnodes, gedges), seed={seed})'),
+                             ('frustrated_loop', f'G.frustrated_loop((gnodes, gedges), 2, seed={seed})')):
+            one(gname, gcall, dict(gnodes=gnodes, gedges=gedges), dict(gnodes='collection', gedges='collection'))
+        planted = [(v, r.choice([-1, 1])) for v in gnodes]
+        one('frustrated_loop', f'G.frustrated_loop((gnodes, gedges), 2, seed={seed}, planted_solution=dict(planted) if isinstance(planted, list) else planted)',
+            dict(gnodes=gnodes, gedges=gedges, planted=planted), dict(planted='mapping'))
+        if rep % 3 == 0:
+            tile, inter = chimera_lattice(1, 2, 2)
+            sn = [v for v in range(8) if r.random() < .8]
+            se = [tuple(sorted(e)) for e in sorted(map(sorted, tile | inter)) if e[0] in sn and e[1] in sn and r.random() < .8]
+            one('chimera_anticluster', f'chimera_anticluster(1, 2, 2, subgraph=(sn, se), seed={seed})', dict(sn=sn, se=se), dict(sn='collection', se='collection'))
+
+
 def run(ctx):
     r = ctx.rng
     ctx.rule = ('every gate generator with random labels (ints, strings, nested tuples) / strengths, both vartypes, every row of the truth table x every auxiliary value; '
@@ -1667,6 +1845,7 @@ def run(ctx):
     mimo_cases(ctx, r, lines, checks)
     comp_cases(ctx, r, lines, checks)
     qpsk_cases(ctx, r, lines, checks)
+    forms_cases(ctx, r)
     ctx.notes.append('random generators: the NumPy generator is a contract (its draws are recorded and handed to the models as an explicit stream); placement of the draws, index maps, pair selection, capacities are modelled (Rnd.*) and proved; range / reproducibility over seeds stay validated; '
                      'multiplication circuit: "energy 0 (minimised over the internal wires) iff p = a*b, else >= 1" is proved for all n, m >= 2 (multiplication_circuit_zero_iff_product); the enumeration up to 3x3 stays as a test')
     got = run_driver('gendriver', lines)
